@@ -9,6 +9,10 @@ class Marker(Exception):
     pass
 
 
+class MarkerBase(BaseException):
+    """a block may also be left by something that is not an Exception (KeyboardInterrupt, SystemExit, a cancellation)"""
+
+
 def mk_creds(name):
     from puresnmp import V1, V2C, V3
     fam, who = name.split(":")
@@ -27,6 +31,7 @@ async def run_history(tree):
     events = []
     agents = {}
     seen = []
+    wire = []          # (timeout, retries) of EVERY datagram handed to the transport, discovery probes included
 
     async def sender(endpoint, packet, timeout=None, retries=None):
         packet = bytes(packet)
@@ -36,10 +41,12 @@ async def run_history(tree):
         if ver == 3:
             q = parse_v3(packet)
             ag = agents.setdefault("v3", Agent({(1, 3, 6, 1, 2, 1, 1, 1, 0): enc_int(1)}, users=[User(b"u")]))
+            wire.append([timeout if timeout is not None else -1, retries if retries is not None else -1])
             if q["engine"] != b"":
                 seen.append(dict(timeout=timeout, retries=retries, version="v3", ident="v3:" + q["user"].decode()))
             return ag.handle(packet)
         q = parse_community(packet)
+        wire.append([timeout if timeout is not None else -1, retries if retries is not None else -1])
         seen.append(dict(timeout=timeout, retries=retries, version={0: "v1", 1: "v2c"}[ver], ident={0: "v1", 1: "v2c"}[ver] + ":" + q["community"].decode()))
         ag = agents.setdefault((ver, q["community"]), Agent({(1, 3, 6, 1, 2, 1, 1, 1, 0): enc_int(1)}, version=ver, community=q["community"]))
         return ag.handle(packet)
@@ -50,6 +57,7 @@ async def run_history(tree):
             kind = it[0]
             if kind == "req":
                 n0 = len(seen)
+                w0 = len(wire)
                 try:
                     await c.multiget([OID("1.3.6.1.2.1.1.1.0")])
                     ok = True
@@ -57,7 +65,7 @@ async def run_history(tree):
                     ok = False
                 obs = seen[-1] if len(seen) > n0 else dict(timeout=-1, retries=-1, version="none", ident="none")
                 # the version is the one the *message layer* spoke; for v1/v2c it is also in ident
-                events.append(dict(e="request", ok=ok and len(seen) > n0, **obs))
+                events.append(dict(e="request", ok=ok and len(seen) > n0, wire=[list(x) for x in wire[w0:]], **obs))
             elif kind == "cfg":
                 try:
                     c.configure(**kwargs(it[1]))
@@ -89,8 +97,16 @@ async def run_history(tree):
                         await go(body)
                         if how == "exc":
                             raise Marker()
+                        if how == "base":
+                            raise MarkerBase()
+                        if how == "cancel":
+                            raise asyncio.CancelledError()      # what a cancellation / wait_for timeout delivers at an await inside the block
                 except Marker:
                     observed = "exc"
+                except MarkerBase:
+                    observed = "base"
+                except asyncio.CancelledError:
+                    observed = "cancel"
                 events.append(dict(e="exit", how=how, observed=observed))
     await go(tree)
     return events
